@@ -2,6 +2,7 @@
 import math
 import operator
 from datetime import date
+from datetime import datetime as datetime_
 
 from hypothesis import strategies as st
 
@@ -180,6 +181,21 @@ def run_red(case, ctx):
         ok = R.agg_close(got, want, tol) and R.agg_close(got, ref2, tol) if isinstance(want, float) else (same(got, want) and same(got, ref2))
         if not ok:
             return ctx.fail(f"reduction/{f}/none-not-skipped-or-wrong", f"{vals}.{f}() = {got!r}; None-free vector gives {ref2!r}; reference {want!r}")
+    if numeric and len(clean) >= 1:
+        ctx.ev()
+        try:
+            got = v.stdev(population=True)
+        except Exception as e:  # noqa: BLE001
+            return ctx.fail(f"reduction/stdev-population/raised/{type(e).__name__}", f"{vals}: {e}")
+        if len(clean) < 2:
+            want = None if len(clean) < 2 else 0.0
+            ok = got is None or len(clean) == 1
+        else:
+            m = sum(clean) / len(clean)
+            want = math.sqrt(sum((x - m) * (x - m) for x in clean) / len(clean))
+            ok = got is not None and not isinstance(got, complex) and R.agg_close(got, want, tol)
+        if not ok:
+            return ctx.fail("reduction/stdev-population/none-not-skipped-or-wrong", f"{vals}.stdev(population=True) = {got!r}; over the non-None values it is {want!r}")
     # per-group aggregates (single group)
     if vals:
         t = R.build_table([("g", [0] * len(vals)), ("x", vals)])
@@ -278,6 +294,27 @@ def run_na(case, ctx):
             derived.append(("overwritten", w, [clean[0] if x is None else x for x in vals]))
         except Exception:  # noqa: BLE001
             pass
+    if len(vals) >= 2 and not (None in vals) and kind in (int, float, date):
+        wider = {int: 2.5, float: 1j, date: datetime_(2020, 1, 1, 5, 0)}[kind]
+        for order in ((None, wider), (wider, None)):
+            w = S.Vector(list(vals))
+            try:
+                w[0:2] = list(order)
+            except Exception:  # noqa: BLE001
+                continue
+            wl = list(w)
+            ctx.ev()
+            try:
+                if list(w.isna()) != [x is None for x in wl]:
+                    return ctx.fail("isna/wrong/after-batch-assignment", f"{wl}")
+                dd = w.dropna()
+                if [freeze(x) for x in dd] != [freeze(x) for x in wl if x is not None]:
+                    return ctx.fail("dropna/not-exactly-the-isna-positions/after-batch-assignment", f"{wl} -> {list(dd)}")
+                ff = w.fillna(wider)
+            except Exception as e:  # noqa: BLE001
+                return ctx.fail(f"na/after-batch-assignment/raised/{type(e).__name__}", f"{wl}: {e}")
+            if any(x is None for x in ff) or (ff.schema() is not None and ff.schema().nullable):
+                return ctx.fail("fillna/none-left/after-batch-assignment", f"{vals}; v[0:2] = {list(order)} -> {wl}; fillna({wider!r}) -> {list(ff)} {ff.schema()}")
     for how, dv, dvals in derived:
         for x in [y for y in case["fills"] if y is not None and _compatible(y, kind)][:1] + [dvals[0]]:
             ctx.ev()
